@@ -790,6 +790,13 @@ def fatal_site_corpus():
     add("toml-syntax-error", F, importable=False, files={"pyproject.toml": "[tool.rattr\n"})
     add("toml-bool-for-int", F, importable=False, files={"pyproject.toml": "[tool.rattr]\nthreshold = false\n"})
     add("toml-strict-promotes", E, importable=False, files={"pyproject.toml": "[tool.rattr]\nstrict = true\n"})
+    # the three sites of fixes c5833ef / bcdf6de (K23, K25)
+    relsrc = "from .x import y\ndef f(a):\n    return y(a)\n"
+    rows.append({"row": "fatal:relative-import-without-base", "opts": [], "target": "../other/t.py", "cwd": "proj",
+                 "files": {"proj/x.txt": "", "other/t.py": relsrc, "other/x.py": "def y(q):\n    return q.z\n"}})
+    rows.append({"row": "fatal:starred-relative-import-without-base", "opts": [], "target": "a.b/t.py",
+                 "files": {"a.b/t.py": relsrc.replace("import y", "import *"), "a.b/x.py": "def y(q):\n    return q.z\n"}})
+    rows.append({"row": "fatal:cache-not-writable", "opts": ["-C", "c.json"], "target": "target.py", "files": {"target.py": F, "c.json/keep": ""}})
     # normal / argparse exits (not fatal: exit 0 / usage), for site coverage only
     add("exit-normal", F, importable=False)
     rows[-1]["not_fatal"] = True
@@ -1253,6 +1260,13 @@ def run(tier, seed, build):
                     sig = sig or f"other:usage-row-exit{rc}"
             elif c["kind"] == "fatalsite" and not c.get("not_fatal"):
                 res.count("fatal-row:" + ("exit1+fatal-line" if cls == "exit1:diagnostic" and detail.startswith("fatal:") else cls))
+            if c.get("expect_fatal") and sig is None:
+                # a pinned row: exit 1 and a fatal: line carrying the pinned text (stderr; K25 prints its results first)
+                lines_ = [l for l in ANSI.sub("", err).splitlines() if l.startswith("fatal:")]
+                if not (rc == 1 and lines_ and c["expect_fatal"] in lines_[-1]):
+                    sig = f"other:pinned-row-not-fatal[{c['expect_fatal']}]:{cls}"
+                    detail = (ANSI.sub("", err)[-300:] or out[-200:])
+                res.count("pinned-fatal-row:" + ("as-pinned" if sig is None else "DEVIATES"))
             res.count(f"{c['kind']}:{cls.split(':')[0]}")
             res.count("class:" + cls)
             for t in c.get("tags") or []:
